@@ -39,19 +39,65 @@ def J(name, tier="quick", **kw):
 # ---------------------------------------------------------------------------------------
 
 
+STEP_CASES = [
+    ("step_initial_state", "abstract(Parser::new()) == model's initial state"),
+    ("step_ground", "state Ground, 1 stale parameter, 1 stale OSC field, all values symbolic, any byte"),
+    ("step_escape", "state Escape, any byte"),
+    ("step_escape_intermediate", "state EscapeIntermediate, 0..2 intermediates, any byte"),
+    ("step_csi_entry", "state CsiEntry, any byte"),
+    ("step_csi_param_0", "state CsiParam, no completed parameter, any pending value, any byte"),
+    ("step_csi_param_2", "state CsiParam, 2 completed parameters with any ';'/':' structure, any byte"),
+    ("step_csi_intermediate", "state CsiIntermediate, 2 parameters, 0..2 intermediates, any byte"),
+    ("step_csi_ignore", "state CsiIgnore, any byte"),
+    ("step_dcs_entry", "state DcsEntry, any byte"),
+    ("step_dcs_param", "state DcsParam, 2 parameters, any byte"),
+    ("step_dcs_intermediate", "state DcsIntermediate, any byte"),
+    ("step_dcs_passthrough", "state DcsPassthrough, any byte"),
+    ("step_dcs_ignore", "state DcsIgnore, any byte"),
+    ("step_osc_0", "state OscString, payload <=5 bytes, no completed field, any byte"),
+    ("step_osc_2", "state OscString, payload <=5 bytes, 2 completed fields, any byte"),
+    ("step_sos", "state SosPmApcString, any byte"),
+    ("step_utf8", "lead byte + up to 2 more bytes from Ground, then any byte"),
+    ("step_csi_param_31", "state CsiParam with 31 parameter values (limit - 1), any structure, any byte"),
+    ("step_csi_param_32", "state CsiParam with 32 parameter values (at the limit), any byte"),
+    ("step_csi_intermediate_32", "state CsiIntermediate with 32 parameter values, any byte"),
+    ("step_dcs_param_31", "state DcsParam with 31 parameter values, any byte"),
+    ("step_dcs_param_32", "state DcsParam with 32 parameter values, any byte"),
+    ("step_osc_15", "state OscString with 15 completed fields, any byte"),
+    ("step_osc_16", "state OscString with 16 completed fields (at the limit), any byte"),
+    ("step_osc_16_extra", "state OscString with 16 fields and bytes after the last field, any byte"),
+]
+
+
 def jobs_c02(tier, seed):
     f = ["c02"]
     jobs = [
-        J("c02::transition_table", features=f, timeout_s=300, bound="all 15 parser states x all 256 bytes (complete)"),
+        J("c02::transition_table", features=f, timeout_s=300, bound="all 14 table-driven parser states x all 256 bytes (complete)"),
         J("c02::run_from_new_1", features=f, timeout_s=300, bound="every 1-byte stream from Parser::new()"),
         J("c02::run_from_new_2", features=f, timeout_s=600, bound="every 2-byte stream from Parser::new()"),
         J("c02::run_from_new_3", features=f, timeout_s=900, bound="every 3-byte stream from Parser::new()"),
     ]
+    for n, b in STEP_CASES:
+        jobs.append(J(f"c02::{n}", features=f, timeout_s=1200, bound="one step from an arbitrary valid parser state: " + b))
     if tier == "thorough":
         jobs += [
             J("c02::run_from_new_4", features=f, timeout_s=3600, mem_gb=20, bound="every 4-byte stream from Parser::new()"),
             J("c02::run_from_new_5", features=f, timeout_s=7200, mem_gb=24, optional=True, bound="every 5-byte stream from Parser::new()"),
         ]
+    return jobs
+
+
+def jobs_c03(tier, seed):
+    f = ["c03"]
+    jobs = []
+    ns = [2, 3] if tier == "quick" else [2, 3, 4, 5]
+    for n in ns:
+        to = {2: 600, 3: 1200, 4: 3600, 5: 3 * 3600}[n]
+        mem = 12 if n < 4 else 24
+        jobs.append(J(f"c03::bytes_chunked_{n}", features=f, timeout_s=to, mem_gb=mem, optional=n >= 5, bound=f"StripBytes: every byte string of length {n} x all {2**(n-1)} chunkings vs strip_bytes"))
+        jobs.append(J(f"c03::stream_chunked_{n}", features=f, timeout_s=to, mem_gb=mem, optional=n >= 4, bound=f"StripStream::write_all per chunk: every byte string of length {n} x all chunkings"))
+        if n <= 4:
+            jobs.append(J(f"c03::str_chunked_{n}", features=f, timeout_s=to, mem_gb=mem, bound=f"StripStr: every UTF-8 string of {n} bytes x all chunkings at character boundaries vs strip_str"))
     return jobs
 
 
@@ -91,23 +137,161 @@ def jobs_c01(tier, seed):
 def jobs_c05(tier, seed):
     f = ["c05"]
     names = [
-        ("display_roundtrip_full", "every style value (4096 effect sets x every colour in every slot), Display and render()"),
-        ("write_to_roundtrip_full", "every style value, io::Write path"),
-        ("color_render_fg_bg", "every colour, Color/AnsiColor/Ansi256Color/RgbColor render_fg/render_bg"),
-        ("effects_render", "every effect set"),
+        ("slot_fg", "every colour (16+256+2^24) as foreground: interpreted, stripped; render() and write_to byte-equal"),
+        ("slot_bg", "every colour as background, same checks"),
+        ("slot_underline", "every colour as underline colour, same checks"),
+        ("color_render_fg_bg", "every colour: Color/AnsiColor/Ansi256Color/RgbColor render_fg/render_bg byte-equal to the style's"),
+        ("effects_single_0_3", "effects BOLD, DIMMED, ITALIC alone: interpreted, stripped; three paths byte-equal"),
+        ("effects_single_3_6", "effects UNDERLINE, DOUBLE_UNDERLINE, CURLY_UNDERLINE alone, same checks"),
+        ("effects_single_6_9", "effects DOTTED_UNDERLINE, DASHED_UNDERLINE, BLINK alone, same checks"),
+        ("effects_single_9_12", "effects INVERT, HIDDEN, STRIKETHROUGH alone, same checks"),
+        ("effects_structure", "every one of the 4096 effect sets: in-order concatenation of its members' renderings"),
+        ("style_structure_display", "every style value (4096 effect sets x any colour in each slot): Display is the in-order concatenation of exactly its parts' renderings"),
+        ("style_structure_write_to", "same for the io::Write path"),
         ("reset_forms", "every style x every prior terminal state: {:#}, render_reset, write_reset_to, Reset"),
-        ("display_equals_write_to_bytes", "byte equality Display vs write_to: one effect + one colour in one slot, all values"),
-        ("flags_width", "4 format strings x (one effect + one colour in one slot, all values)"),
+        ("flags_width", "4 format strings x (2 effects + any colour fg + any 256-colour underline)"),
         ("flags_fill", "4 format strings, same shape"),
         ("flags_precision", "4 format strings, same shape"),
         ("flags_alternate", "4 format strings, same shape"),
         ("flags_alternate2", "4 format strings, same shape"),
         ("flags_misc", "4 format strings, same shape"),
+        ("flags_plain_style", "plain style under 4 flag combinations"),
     ]
-    return [J(f"c05::{n}", features=f, timeout_s=900, bound=b) for n, b in names]
+    jobs = [J(f"c05::{n}", features=f, timeout_s=1200, bound=b) for n, b in names]
+    if tier == "thorough":
+        jobs.append(J("c05::style_structure_render", features=f, timeout_s=3600, bound="every style value: Style::render() is the in-order concatenation of exactly its parts' renderings"))
+        for n in ["full_interpret_ansi_rgb_256", "full_interpret_rgb_256_ansi", "full_interpret_256_ansi_rgb"]:
+            jobs.append(J(f"c05::{n}", features=f, timeout_s=3600, mem_gb=20, optional=True, bound="fragmentation-independent interpretation of a whole style: 3-4 concrete effects, all three colours symbolic (kinds fixed)"))
+    return jobs
+
+
+def jobs_c09(tier, seed):
+    f = ["c09"]
+    jobs = [
+        J("c09::decision_stdout", features=f, stubbing=True, replay="none", timeout_s=900,
+          bound="4 global choices x 6 variables each in {unset,'','0','1','dumb','xterm-256color','truecolor','24bit','true'} x stdout terminal yes/no (complete over that domain)"),
+        J("c09::decision_non_terminal", features=f, stubbing=True, replay="none", timeout_s=900,
+          bound="same environment domain x in-memory writer; AutoStream::auto(..).current_choice()"),
+        J("c09::probes", features=f, stubbing=True, replay="none", timeout_s=900,
+          bound="each anstyle_query probe against its published convention over the same value set"),
+        J("c09::clap_flag_mapping", features=f + ["c09clap"], timeout_s=1800, min_covers=1,
+          bound="the three flag values map one-to-one onto the global choice (concrete)"),
+    ]
+    return jobs
+
+
+C07_QUICK = ["csi_k1_s0", "csi_k2_s0", "csi_k2_s1", "csi_k3_s0", "csi_k3_s1", "csi_k3_s2", "csi_k3_s3",
+             "csi_k4_s0", "csi_k4_s1", "csi_k4_s2", "csi_k4_s3", "csi_k4_s4", "csi_k4_s5", "csi_k4_s6", "csi_k4_s7",
+             "csi_k5_s0", "csi_k5_s15"]
+C07_THOROUGH = ["csi_k5_s6", "csi_k5_s3", "csi_k5_s12", "csi_k5_s1", "csi_k6_s0", "csi_k6_s30", "csi_k6_s15",
+                "csi_k6_s27", "csi_k6_s1", "csi_k7_s0", "csi_k8_s0"]
+
+
+def jobs_c07(tier, seed):
+    f = ["c07"]
+
+    def shape(name):
+        k, s = name[5:].split("_s")
+        k, s = int(k), int(s)
+        seps = "".join(":" if (s >> i) & 1 else ";" for i in range(k - 1))
+        return f"single SGR sequence with {k} parameter values, separators '{seps}', every value a free u16, any prior style"
+
+    names = list(C07_QUICK)
+    if tier == "thorough":
+        names += C07_THOROUGH
+    else:
+        # rotate two of the deeper shapes into the quick tier
+        extra = C07_THOROUGH[seed % len(C07_THOROUGH)], C07_THOROUGH[(seed + 5) % len(C07_THOROUGH)]
+        names += [e for e in extra if e not in names]
+    jobs = [J(f"c07::harness::{n}", features=f, timeout_s=1200, bound=shape(n)) for n in names]
+    jobs.append(J("c07::harness::combined_equals_separate_2", features=f, timeout_s=1200, bound="a;b vs a then b: all pairs of single-parameter codes (free u16 x free u16), any prior style"))
+    jobs.append(J("c07::harness::non_sgr_changes_nothing", features=f, timeout_s=1200, bound="any final byte other than m, or ignore flag set; ESC/OSC/DCS callbacks; any prior style"))
+    return jobs
+
+
+def jobs_c12(tier, seed):
+    f = ["c12"]
+    ks = [1, 2, 3] if tier == "quick" else [1, 2, 3, 4, 5, 6]
+    jobs = [J("c12::ls_no_style", features=f, timeout_s=600, bound='"" / "0" / "00" (concrete)', min_covers=1)]
+    for k in ks:
+        to = {1: 600, 2: 900, 3: 1200, 4: 3600, 5: 2 * 3600, 6: 3 * 3600}[k]
+        jobs.append(J(f"c12::ls_codes_{k}", features=f, stubbing=True, timeout_s=to, mem_gb=16 if k < 5 else 24, optional=k >= 5, replay="none",
+                      bound=f"every list of {k} codes (256^{k} lists), any one field failing to parse"))
+    return jobs
+
+
+def jobs_c17(tier, seed):
+    f = ["c17"]
+    names = [
+        ("colored_fg_bg", "both colours given (16x16), data <=3 bytes, any accepted count, failure at any of the 4 inner writes or none"),
+        ("colored_fg_only", "foreground only, same script space (3 inner writes)"),
+        ("colored_bg_only", "background only, same script space"),
+        ("colored_none", "no colour: no code at all, one data write"),
+        ("colored_vec", "Vec<u8> writer: 17x17 colour pairs x 2 data bytes, layout codes/data/reset"),
+    ]
+    return [J(f"c17::{n}", features=f, timeout_s=900, bound=b) for n, b in names]
+
+
+def jobs_c16(tier, seed):
+    f = ["c16"]
+    names = [
+        ("ansi_term", "every anstyle::Style value -> ansi_term::Style fields"),
+        ("crossterm", "every style -> crossterm ContentStyle colours (fg, bg, underline) and attribute set"),
+        ("owo_colors", "every style -> owo_colors::Style (PartialEq against the reference value) and DynColors"),
+        ("termcolor", "every style -> termcolor::ColorSpec getters"),
+        ("yansi", "every style -> yansi::Style colours and attribute set"),
+        ("syntect", "every syntect Style (RGBA x RGBA x font bits) -> anstyle::Style"),
+    ]
+    return [J(f"c16::{n}", crate="adapters", features=f, timeout_s=900, bound=b + " (complete over the value space)") for n, b in names]
 
 
 REGISTRY = {
+    "C16": {
+        "jobs": jobs_c16,
+        "level": "proof",
+        "functions": [
+            "anstyle_ansi_term::to_ansi_term", "anstyle_crossterm::to_crossterm",
+            "anstyle_owo_colors::{to_owo_style,to_owo_colors}", "anstyle_termcolor::{to_termcolor_spec,to_termcolor_color}",
+            "anstyle_yansi::{to_yansi_style,to_yansi_color}", "anstyle_syntect::{to_anstyle,to_anstyle_color,to_anstyle_effects}",
+        ],
+        "bounds": {"quick": "complete over anstyle::Style (2^12 effect sets x (none|16|256|2^24)^3 colours) per adapter; no bound", "thorough": "same"},
+        "outside": "the third-party libraries' own rendering (confirmed natively for the reference tables by harness/adapters/tests/render.rs, not by the solver)",
+        "trusted": ["Kani 0.68 MIR->goto", "CBMC 6.11 + CaDiCaL", "reference tables harness/adapters/src/reference.rs (each library's documented meaning of its variants)"],
+        "assumptions": ["the target value 'denotes the same SGR attribute' as read from each library's documentation; tables cross-checked natively by rendering with the library and interpreting with vmodels::sgr"],
+    },
+    "C09": {
+        "jobs": jobs_c09,
+        "level": "proof",
+        "functions": ["anstream::auto::choice via AutoStream::choice / AutoStream::auto", "anstyle_query::{clicolor,clicolor_force,no_color,term_supports_color,term_supports_ansi_color,truecolor,is_ci,non_empty}", "colorchoice::ColorChoice::{global,write_global}, AtomicChoice", "colorchoice_clap::Color::{as_choice,write_global}", "anstream::stream::IsTerminal for Stdout / Vec<u8>"],
+        "bounds": {"quick": "complete over the configuration domain: 4 global choices x 9^6 variable assignments x {terminal, not a terminal}", "thorough": "same"},
+        "outside": "variable values other than the nine listed strings; stderr and file streams (same code path through IsTerminal); Windows arms",
+        "trusted": ["Kani 0.68 stubbing (-Z stubbing)", "CBMC 6.11 + CaDiCaL", "OsString/OsStr comparison as compiled by Kani"],
+        "assumptions": ["STUB: std::env::var_os returns the value selected by a free selector per variable", "STUB: <Stdout as is_terminal_polyfill::IsTerminal>::is_terminal returns a free bool"],
+    },
+    "C07": {
+        "jobs": jobs_c07,
+        "level": "model_checking",
+        "functions": ["anstream::adapter::wincon::WinconCapture::{csi_dispatch,esc_dispatch,osc_dispatch,hook,put,unhook} (source file include!d from the working tree)", "anstream::adapter::wincon::to_ansi_color", "anstyle_parse::Params::iter"],
+        "bounds": {"quick": "every single SGR sequence of <=4 parameter values in every ';'/':' shape (15 shapes) plus the 5-value ';' and ':' shapes, every value a free u16, from every prior style; combined-vs-separate for all code pairs", "thorough": "28 shapes up to 8 values (all extended-colour forms next to other attributes)"},
+        "outside": "sequences with more parameter values than the shapes listed; codes the property is silent about (5, 6, 22-29, 59: no assertion); extended colours with missing / out-of-range operands (ill-formed: no assertion); an underline code applied while a different underline kind is in effect (the flag view of the style type and the one-kind terminal view disagree about the result: no assertion); run emission across calls is covered by the run harnesses",
+        "assumptions": ["reference interpreter vmodels::sgr with dialect EXTRACT", "parameter lists are built through the verification hook Params::verif_from_parts"],
+    },
+    "C12": {
+        "jobs": jobs_c12,
+        "level": "model_checking",
+        "functions": ["anstyle_ls::parse (split, Option-collect into VecDeque, queue-driven code interpreter with 38/48/58 look-ahead)", "std VecDeque / str::split as compiled by Kani"],
+        "bounds": {"quick": "every list of <=3 codes, each code any value 0..=255; any single field rejected by number parsing", "thorough": "lists of <=6 codes (5 and 6 optional)"},
+        "outside": "lists longer than the bound; the decimal string layer itself (signs, spaces, leading zeros, non-ASCII, >255): std's u8::from_str is stubbed; 21 and 38/48/58 with missing operands (the property does not fix them)",
+        "assumptions": ["STUB: <u8 as core::str::FromStr>::from_str returns the k-th symbolic code or std's ParseIntError; std's str::split(';') and u8::from_str are assumed correct"],
+    },
+    "C17": {
+        "jobs": jobs_c17,
+        "level": "model_checking",
+        "functions": ["anstyle_wincon::ansi::write_colored", "<dyn std::io::Write as anstyle_wincon::WinconStream>::write_colored", "<Vec<u8> as WinconStream>::write_colored", "anstyle::AnsiColor::{render_fg,render_bg}", "anstyle::Reset::render", "std::io::Write::write_fmt (default) as compiled by Kani"],
+        "bounds": {"quick": "17x17 colour pairs, data <=3 bytes (all values), any accepted prefix, failure of any kind {Interrupted,WouldBlock,Other} at any of the <=4 inner writes", "thorough": "same"},
+        "outside": "data longer than 3 bytes; File/stdio writers (same generic function)",
+        "assumptions": ["scripted writer overrides write_all (no retry loop), errors are bare ErrorKinds"],
+    },
     "C01": {
         "jobs": jobs_c01,
         "level": "model_checking",
@@ -128,6 +312,21 @@ REGISTRY = {
             "for ill-formed UTF-8 the bytes of the printed U+FFFD are visible text, except a control byte that terminated the broken sequence",
         ],
     },
+    "C03": {
+        "jobs": jobs_c03,
+        "level": "model_checking",
+        "functions": [
+            "anstream::adapter::{StripBytes::strip_next, StripStr::strip_next, strip_bytes, strip_str} (next_bytes, next_str)",
+            "anstream::StripStream::<&mut dyn Write>::write_all per chunk",
+            "anstyle_parse::state::state_change, utf8parse::Parser::advance",
+        ],
+        "bounds": {
+            "quick": "every byte string of length <=3 x every partition into consecutive chunks (one symbolic cut mask), byte adapters and strip stream; every UTF-8 string of <=3 bytes x every partition at character boundaries",
+            "thorough": "lengths <=5 (bytes; 5 optional) and <=4 (text, stream)",
+        },
+        "outside": "longer inputs; the styled-run extractor's chunking is covered under C07's run harness",
+        "assumptions": ["the chunked result is compared with the one-shot result of the same build (and C01 ties the one-shot result to the model)"],
+    },
     "C05": {
         "jobs": jobs_c05,
         "level": "model_checking",
@@ -140,7 +339,7 @@ REGISTRY = {
             "core::fmt::{write, Formatter::pad, write_str} as compiled by Kani",
         ],
         "bounds": {
-            "quick": "round trip and purity: complete over all style values; byte equality and the 24-entry flag grid: styles of the shape one effect + one colour (all values)",
+            "quick": "round trip and purity: every colour in every slot, every effect set, whole styles with the colour kind per slot fixed per query (2 kind assignments; 4 in thorough) and everything else symbolic; byte equality and the 24-entry flag grid: styles of the shape one effect + one colour (all values)",
             "thorough": "same",
         },
         "outside": "byte-level equality of Display vs write_to and of flagged vs unflagged output for styles with several effects/colours at once (their interpretation is covered); format strings outside the fixed grid",
@@ -269,7 +468,7 @@ def run_property(prop, spec, tier, seed, kf, only=None) -> Outcome:
         spec["pre"](prop, tier, seed, out)
     results = runner.run_jobs(prop, jobs) if jobs else []
     out.results = results
-    crate_dirs = {c: runner.WORK / prop / f"crate-{c}" for c in {j.crate for j in jobs}}
+    crate_dirs = {c: runner.workdir(prop) / f"crate-{c}" for c in {j.crate for j in jobs}}
     for idx, r in enumerate(results):
         j = r.job
         if j.expect_fail:
